@@ -1058,21 +1058,26 @@ theorem response_ctx_is_request_ctx_impl (steps : List M.Oscore.SrvStep) :
     (∀ t pos aad nonce piv o (later : List M.Oscore.SrvStep), (∀ x ∈ later, SrvStepLeaves t x) →
       M.Oscore.srvResponseCtx (M.Oscore.srvRun ⟨none, []⟩ (steps ++ [.decrypt t pos aad nonce piv true o] ++ later)) t = some pos ∧
       ∃ a, M.Oscore.findSAssoc (M.Oscore.srvRun ⟨none, []⟩ (steps ++ [.decrypt t pos aad nonce piv true o] ++ later)).as t = some a ∧
-        a.rcp = pos ∧ a.piv = piv ∧ a.nonce = nonce ∧ a.aad = aad ∧ (o = true → a.isObserve = true)) := by
+        a.rcp = pos ∧ a.piv = piv ∧ a.nonce = nonce ∧ a.aad = aad ∧ (o = true → a.isObserve = true) ∧ a.isClient = false) := by
   constructor
   · intro t pos h
-    have h0 : SrvInv ⟨none, []⟩ (fun _ => none) := by
+    have h0 : SrvInvReq ⟨none, []⟩ (fun _ => none) := by
       intro t a ha
       simp [M.Oscore.findSAssoc] at ha
-    have hinv := SrvInv_run steps ⟨none, []⟩ (fun _ => none) h0
+    have hinv := SrvInvReq_run steps ⟨none, []⟩ (fun _ => none) h0
     unfold M.Oscore.srvResponseCtx at h
     cases hf : M.Oscore.findSAssoc (M.Oscore.srvRun ⟨none, []⟩ steps).as t with
     | none => simp [hf] at h
     | some a =>
-      simp only [hf, Option.map_some, Option.some.injEq] at h
-      have := hinv t a hf
-      rw [← h]
-      exact this
+      simp only [hf] at h
+      by_cases hcl : a.isClient = true
+      · simp [hcl] at h
+      · simp only [hcl, if_false, Bool.false_eq_true, Option.some.injEq] at h
+        have := hinv t a hf (by simpa using hcl)
+        rw [srvLatest_fst]
+        unfold M.Oscore.srvLatestReq
+        rw [this, ← h]
+        rfl
   · intro t pos aad nonce piv o later hl
     have hrun : M.Oscore.findSAssoc (M.Oscore.srvRun ⟨none, []⟩ (steps ++ [.decrypt t pos aad nonce piv true o] ++ later)).as t =
         M.Oscore.findSAssoc (M.Oscore.srvDecrypt (List.foldl M.Oscore.srvStep ⟨none, []⟩ steps) t pos aad nonce piv true o).as t := by
@@ -1087,7 +1092,80 @@ theorem response_ctx_is_request_ctx_impl (steps : List M.Oscore.SrvStep) :
     refine ⟨?_, a, by rw [hrun, ha], hr⟩
     unfold M.Oscore.srvResponseCtx
     rw [hrun, ha]
-    simp [hr.1]
+    simp [hr.1, hr.2.2.2.2.2]
+
+/-- **A response is never protected with the nonce of a request sent from this end** (fix 48ee5dc; RFC 8613 §5.2: a nonce
+at most once per key).  libcoap keeps ONE table `session->associations`, keyed by the token only, for the requests a
+session sends AND the requests it receives.  For EVERY interleaving, on one session, of received requests (`decrypt`,
+verified or not, any context, with or without Observe), responses protected (`protect`), requests sent from this end
+(`request`: fresh token or ANY token in the table, also that of a received request not yet answered) and responses received
+(`respIn`, verified or not):
+(1) whenever `coap_oscore_new_pdu_encrypted_lkd` finds an association to protect a response with token `t` under
+    (`srvResponseAssoc … = some a`: `a.nonce` is what a response without Partial IV is protected with, `a.aad` / `a.piv` what
+    every response is bound to), that association does not belong to a request sent from this end and its recipient context,
+    AAD, nonce and Partial IV are those of the latest VERIFIED RECEIVED request with `t` — and no request sent from this end
+    has used `t` since (`srvLatestReq`, a function of the step list alone; `latest_received_request_spelled_out` below says
+    what `some` means);
+(2) after a request sent from this end with token `t` — and whatever follows except a verified received request with `t`
+    (which takes the token over with ITS nonce) — no response with `t` can be protected at all: no association is handed to
+    the response path, the Partial IV decision is not reached, no Sender Context is selected.  So the nonce of that request
+    (and its AAD) never reaches the AEAD a second time.
+A transcription without the `is_client` test (the code before 48ee5dc) violates (1) and (2): `example` below. -/
+theorem response_never_under_own_request_nonce (steps : List M.Oscore.SrvStep) :
+    (∀ t a, M.Oscore.srvResponseAssoc (M.Oscore.srvRun ⟨none, []⟩ steps) t = some a →
+      a.isClient = false ∧ M.Oscore.srvLatestReq steps t = some (a.rcp, a.aad, a.nonce, a.piv)) ∧
+    (∀ t pos aad nonce piv o v (later : List M.Oscore.SrvStep), (∀ x ∈ later, SrvStepKeepsClient t x) →
+      let s := M.Oscore.srvRun ⟨none, []⟩ (steps ++ [.request t pos aad nonce piv o v] ++ later)
+      M.Oscore.srvResponseAssoc s t = none ∧ M.Oscore.srvResponseCtx s t = none ∧
+      (∀ d ask, M.Oscore.srvOwnPiv s t d ask = none) ∧ M.Oscore.srvProtect s t = s) := by
+  constructor
+  · intro t a h
+    have h0 : SrvInvReq ⟨none, []⟩ (fun _ => none) := by
+      intro t a ha
+      simp [M.Oscore.findSAssoc] at ha
+    have hinv := SrvInvReq_run steps ⟨none, []⟩ (fun _ => none) h0
+    unfold M.Oscore.srvResponseAssoc at h
+    cases hf : M.Oscore.findSAssoc (M.Oscore.srvRun ⟨none, []⟩ steps).as t with
+    | none => simp [hf] at h
+    | some a0 =>
+      simp only [hf] at h
+      by_cases hcl : a0.isClient = true
+      · simp [hcl] at h
+      · simp only [hcl, if_false, Bool.false_eq_true, Option.some.injEq] at h
+        subst h
+        have hc : a0.isClient = false := by simpa using hcl
+        exact ⟨hc, hinv t a0 hf hc⟩
+  · intro t pos aad nonce piv o v later hl s
+    have hcl : ∀ a, M.Oscore.findSAssoc s.as t = some a → a.isClient = true := by
+      have hs : s = M.Oscore.srvRun (M.Oscore.srvRequest (List.foldl M.Oscore.srvStep ⟨none, []⟩ steps) t pos aad nonce piv o v) later := by
+        show M.Oscore.srvRun _ _ = _
+        unfold M.Oscore.srvRun
+        rw [List.foldl_append, List.foldl_append, List.foldl_cons, List.foldl_nil]
+        rfl
+      rw [hs]
+      apply client_run_keeps later t hl
+      intro a ha
+      obtain ⟨a', h1, h2, _⟩ := (findSAssoc_request (List.foldl M.Oscore.srvStep ⟨none, []⟩ steps) t pos aad nonce piv o v t).1 rfl
+      rw [h1] at ha
+      injection ha with ha
+      rw [← ha]; exact h2
+    have hra : M.Oscore.srvResponseAssoc s t = none := by
+      unfold M.Oscore.srvResponseAssoc
+      cases hf : M.Oscore.findSAssoc s.as t with
+      | none => rfl
+      | some a => simp [hcl a hf]
+    refine ⟨hra, ?_, ?_, ?_⟩
+    · unfold M.Oscore.srvResponseCtx
+      cases hf : M.Oscore.findSAssoc s.as t with
+      | none => rfl
+      | some a => simp [hcl a hf]
+    · intro d ask
+      unfold M.Oscore.srvOwnPiv
+      rw [hra]; rfl
+    · unfold M.Oscore.srvProtect
+      cases hf : M.Oscore.findSAssoc s.as t with
+      | none => rfl
+      | some a => simp [hcl a hf]
 
 /-- **libcoap (M) gives every response to an Observe request its own Partial IV** (fix 155f0b4), and agrees with D14.5 on
 the others.  After a verified `decrypt` step for token `t` whose plaintext carried Observe — and whatever steps follow that
@@ -1103,27 +1181,28 @@ theorem observe_request_own_piv_impl (steps : List M.Oscore.SrvStep) (t : Bytes)
     M.Oscore.srvProtect (M.Oscore.srvRun ⟨none, []⟩ (steps ++ [.decrypt t pos aad nonce piv true true] ++ later)) t =
       M.Oscore.srvRun ⟨none, []⟩ (steps ++ [.decrypt t pos aad nonce piv true true] ++ later) ∧
     (∀ (s : M.Oscore.Srv) (a : M.Oscore.SAssoc) (d ask : Bool), M.Oscore.findSAssoc s.as t = some a → a.isObserve = false →
+      a.isClient = false →
       M.Oscore.srvOwnPiv s t d ask = some (ownPiv ask false ⟨0, 0, 0, [], if d then [(optObserve, [])] else [], []⟩) ∧
       M.Oscore.findSAssoc (M.Oscore.srvProtect s t).as t = none) := by
-  obtain ⟨_, a, ha, _, _, _, _, hobs⟩ :=
+  obtain ⟨_, a, ha, _, _, _, _, hobs, hncl⟩ :=
     (response_ctx_is_request_ctx_impl steps).2 t pos aad nonce piv true later hl
   have hio : a.isObserve = true := hobs rfl
   refine ⟨?_, ?_, ?_⟩
   · intro d ask
-    unfold M.Oscore.srvOwnPiv
+    unfold M.Oscore.srvOwnPiv M.Oscore.srvResponseAssoc
     rw [ha]
-    cases d <;> cases ask <;> simp [hio]
+    cases d <;> cases ask <;> simp [hio, hncl]
   · unfold M.Oscore.srvProtect
     rw [ha]
-    simp [hio]
-  · intro s a0 d ask hf hno
+    simp [hio, hncl]
+  · intro s a0 d ask hf hno hnc
     constructor
-    · unfold M.Oscore.srvOwnPiv
+    · unfold M.Oscore.srvOwnPiv M.Oscore.srvResponseAssoc
       rw [hf]
-      cases d <;> cases ask <;> simp [hno, ownPiv, hasObserve]
+      cases d <;> cases ask <;> simp [hno, hnc, ownPiv, hasObserve]
     · unfold M.Oscore.srvProtect
       rw [hf]
-      simp only [hno, Bool.false_eq_true, if_false]
+      simp only [hno, hnc, Bool.false_eq_true, if_false]
       rw [findSAssoc_filter]
       simp
 
@@ -1321,7 +1400,7 @@ request with a new token leaves no association behind -/
 example :
     let s := M.Oscore.srvRun ⟨none, []⟩ [.decrypt [1] (0, 0) [5] [7] [0x14] true false, .decrypt [1] (1, 0) [6] [9] [0x99] false false,
                                          .decrypt [2] (1, 0) [6] [9] [0x99] false true]
-    s.as = [⟨[1], (0, 0), [5], [7], [0x14], false⟩] ∧ s.rcp = some (1, 0) ∧
+    s.as = [⟨[1], (0, 0), [5], [7], [0x14], false, false⟩] ∧ s.rcp = some (1, 0) ∧
     SrvStepLeaves [1] (.decrypt [1] (1, 0) [6] [9] [0x99] false false) ∧ SrvStepLeaves [1] (.decrypt [2] (1, 0) [6] [9] [0x99] false true) := by
   refine ⟨by decide, by decide, Or.inr rfl, Or.inl (by decide)⟩
 
@@ -1334,5 +1413,24 @@ example :
     M.Oscore.srvOwnPiv s [3] false true = none ∧
     M.Oscore.srvOwnPiv (M.Oscore.srvProtect s [1]) [1] false false = some true ∧
     M.Oscore.srvOwnPiv (M.Oscore.srvProtect s [2]) [2] false false = none := by decide
+
+/-- M, fix 48ee5dc, both orders on ONE session.  (a) request 01 received (nonce 07), then a request SENT with token 01 (own
+nonce 0a): the association is the sent request's (`is_client`), no response with token 01 can be protected — the code before
+the fix handed nonce 0a to the response (`findSAssoc` shows what it would have used).  (b) request SENT with token 01 first,
+then request 01 received and verified: the received request takes the token over, the response is protected under nonce 07.
+Hypotheses of `response_never_under_own_request_nonce` (2): every step but a verified received request with the token. -/
+example :
+    let a := M.Oscore.srvRun ⟨none, []⟩ [.decrypt [1] (0, 0) [5] [7] [0x14] true false, .request [1] (0, 0) [6] [0x0a] [0x02] false 0]
+    let b := M.Oscore.srvRun ⟨none, []⟩ [.decrypt [9] (0, 0) [4] [6] [0x13] true false, .request [1] (0, 0) [6] [0x0a] [0x02] false 0,
+                                         .decrypt [1] (0, 0) [5] [7] [0x14] true false]
+    M.Oscore.srvResponseAssoc a [1] = none ∧ M.Oscore.srvResponseCtx a [1] = none ∧ M.Oscore.srvOwnPiv a [1] false false = none ∧
+    (M.Oscore.findSAssoc a.as [1]).map (fun x => (x.nonce, x.isClient)) = some ([0x0a], true) ∧
+    (M.Oscore.srvResponseAssoc b [1]).map (fun x => (x.nonce, x.aad, x.piv, x.isClient)) = some ([7], [5], [0x14], false) ∧
+    M.Oscore.srvLatestReq [.decrypt [9] (0, 0) [4] [6] [0x13] true false, .request [1] (0, 0) [6] [0x0a] [0x02] false 0,
+                           .decrypt [1] (0, 0) [5] [7] [0x14] true false] [1] = some ((0, 0), [5], [7], [0x14]) ∧
+    M.Oscore.srvLatestReq [.decrypt [1] (0, 0) [5] [7] [0x14] true false, .request [1] (0, 0) [6] [0x0a] [0x02] false 0] [1] = none ∧
+    SrvStepKeepsClient [1] (.decrypt [1] (1, 0) [6] [9] [0x99] false false) ∧ SrvStepKeepsClient [1] (.respIn [1] true) ∧
+    SrvStepKeepsClient [1] (.protect [1]) ∧ SrvStepLeaves [1] (.request [2] (0, 0) [6] [0x0b] [0x03] true 0) := by
+  refine ⟨by decide, by decide, by decide, by decide, by decide, by decide, by decide, Or.inr rfl, trivial, trivial, (by decide : ([2] : Bytes) ≠ [1])⟩
 
 end Coap.C14
